@@ -88,6 +88,25 @@ def run(rep, tier, seed, replay):
         if f == "in" or True:
             # text_exact_compiled: no finding is listed for this property
             rep.violation("oracle", "text_exact_compiled: a glob with invariant text %s (fragment %s)" % (name, f), inp, impl=in_impl, spec=not in_impl, fragment=f)
+    # ---- a combinator that contains a combinator over NO patterns: any([any([e]), any([])]) — the union with nothing
+    if replay is None or replay["input"].get("nested-empty"):
+        es = ["a", "a/b", "(?-i)x", "", "/", "{a}", "<a:2>"] if replay is None else [replay["input"]["nested-empty"]]
+        for e0, line in zip(es, h.ask(["AN 1 " + hexs(e0) for e0 in es])):
+            d = lib.parse_impl_build(line)
+            rep.evaluations += 1
+            if not d["ok"] or not d.get("text", "").startswith("inv:"):
+                rep.stats["nested-empty:" + (d.get("text", "?").split(":")[0] if d["ok"] else "err")] += 1
+                continue
+            stext = unhex(d["text"][4:])
+            ans = h.ask(["L %s %s" % (hexs(d["pattern"]), hexs("(?s)^(?-i:%s)$" % rx_escape(stext)))])[0]
+            if ans == "EQUAL":
+                rep.stats["nested-empty: invariant-and-singleton"] += 1
+            elif ans.startswith("DIFF"):
+                w = unhex(ans.split()[1])
+                got = h.ask(["MAN %s 1 %s" % (hexs(w), hexs(e0))])[0].startswith("match")
+                if got == (ans.split()[2] == "first"):
+                    rep.violation("oracle", "text_exact: any([any([%r]), any([])]) reports the invariant text %r and %s %r" % (e0, stext, "also matches" if got else "does not match", w),
+                                  {"nested-empty": e0, "path": w, "text": stext}, impl=got)
     # ---- combinators: any([e]) and any([a, b]) report a text too (invariant only when every member has the same one)
     if replay is None or "any" in replay["input"]:
         inv_pool = [k for k in built if P.impl[k].get("text", "").startswith("inv:")]
